@@ -6,7 +6,9 @@
    into the pieces successive Read calls return.  [stream ps] is what sendRaw
    writes for the buffers [ps].  [limit] is MaxPacketSize (a uint32).  The
    boolean first argument of recv_all / handle_all is fix_f04: false = the
-   pinned code, true = the code with proposed_fixes/C03-F04.diff.  The protobuf
+   code as it was at the pinned commit, true = the code with the F04 repair,
+   which has landed in /repo (Corr.C03.code_fixed_F04 = true; theorems named
+   *_pinned / *_refuted about fix_f04 = false are about the old code).  The protobuf
    codec is not modelled: theorems about values carry the hypotheses
    codec_roundtrip / tid_16 / registered explicitly. *)
 From Coq Require Import List NArith.
@@ -94,7 +96,12 @@ Theorem c03_delivery :
 Proof. exact delivery. Qed.
 Print Assumptions c03_delivery.
 
-(* -- invalid bytes: an error, never another outcome ------------------------------------- *)
+(* -- invalid bytes: an error, never another outcome -------------------------------------
+   What is proved: the characterisation of WHEN the model's unmarshal returns a
+   value, and that the receive loops are given enough fuel.  That there is no
+   crash is true by construction (total Gallina functions, no Crash outcome,
+   because the Go code has no panic site in these layers); panics of the real
+   code are looked for by the harness (clause 5), not excluded by a theorem. *)
 
 Theorem c03_unmarshal_total :
   forall (V T : Type) (registry : bytes -> option T) (dec : T -> bytes -> option V) buf,
@@ -219,6 +226,9 @@ Theorem c03_accept_then_handle :
 Proof. exact accept_then_handle. Qed.
 Print Assumptions c03_accept_then_handle.
 
+(* the model of the in-memory transport IS a list used as a queue; the content of
+   this theorem is the envelope round trip per element, the FIFO order is by
+   construction and checked against LocalRouter pairs by the harness *)
 Theorem c03_local_fifo :
   forall (V T : Type) (type_of : V -> T) (tid_of : T -> bytes) (registry : bytes -> option T)
          (enc : V -> option bytes) (dec : T -> bytes -> option V) vs ps,
@@ -397,6 +407,15 @@ Example c03_concurrent_senders_failure_fixed_example :
 Proof. exact failure_then_send_fixed. Qed.
 Print Assumptions c03_concurrent_senders_failure_fixed_example.
 
+Example c03_concurrent_senders_failure_last_example :
+  exists s c,
+    ConcWitness.final true false (firstn 5 ConcWitness.sched_failure) = Some s /\ holder s = None /\
+    done s = [] ++ [c] /\ c_ok c = false /\ Witness.w_marshal (c_val c) = Some (Witness.m x41) /\
+    (forall c' b', In c' ([] ++ [c]) -> Witness.w_marshal (c_val c') = Some b' -> lenN b' <= Witness.limit) /\
+    Witness.limit < 4294967296.
+Proof. exact failure_last_hypotheses. Qed.
+Print Assumptions c03_concurrent_senders_failure_last_example.
+
 Example c03_concurrent_senders_example :
   ConcWitness.final true false ConcWitness.sched_nomutex = None /\
   exists s, ConcWitness.final true false (whole_send 1 17 ++ whole_send 0 17) = Some s /\
@@ -405,7 +424,11 @@ Example c03_concurrent_senders_example :
 Proof. exact mutex_same_schedule_blocked. Qed.
 Print Assumptions c03_concurrent_senders_example.
 
-(* -- the checker run on every observation decides the property ---------------------------------- *)
+(* -- bool/Prop reflection of the stream part of the checker: [stream_clauses]
+   returns no clause number exactly when [stream_prop] -- a propositional
+   restatement of the same clauses -- holds.  This does not tie the checker to the
+   model or to the property text.
+   -- the checker run on every observation ---------------------------------- *)
 
 Theorem c03_checker_sound : forall cl d closed,
   stream_clauses cl d closed = [] <-> stream_prop cl d closed.
